@@ -38,7 +38,7 @@ func runDFSV(c *Ctx) {
 	var helper *ssa.Function
 	var entryCall ssa.CallInstruction
 	for _, call := range core.Calls(DFS) {
-		if cal := call.Common().StaticCallee(); cal != nil && p.InTarget(cal) && cal != p.Func(p.Graph, "hashcode") {
+		if cal := call.Common().StaticCallee(); cal != nil && p.InTarget(cal) && cal != p.HashcodeFn() {
 			helper, entryCall = cal, call
 		}
 	}
@@ -82,7 +82,7 @@ func runDFSV(c *Ctx) {
 			if _, ok := x.(*ssa.MakeMap); ok {
 				freshMap = true
 			}
-			if call, ok := x.(*ssa.Call); ok && core.CalleeName(call.Common()) == core.GraphPath+".hashcode" && core.Strip(call.Common().Args[0]) == DFS.Params[1] {
+			if call, ok := p.IsHashcodeCall(x); ok && core.Strip(call.Common().Args[0]) == DFS.Params[1] {
 				hashed = true
 			}
 		}
@@ -277,7 +277,7 @@ func runKahn(c *Ctx, gf *graphFields) {
 	var scanHeader *ssa.BasicBlock
 	if pan != nil {
 		for _, l := range core.Lits(core.Guards(pan.Block())) {
-			if l.Kind == "cmp" && l.Pol && l.Op == token.GTR {
+			if l.Kind == "cmp" && ((l.Pol && l.Op == token.GTR) || (!l.Pol && (l.Op == token.EQL || l.Op == token.LEQ))) {
 				if k, ok := core.ConstInt(l.Y); ok && k == 0 {
 					if call, ok := l.X.(*ssa.Call); ok && core.CalleeName(call.Common()) == "builtin.len" {
 						r := c.classifyMap(gf, call.Common().Args[0])
@@ -350,6 +350,17 @@ func runKahn(c *Ctx, gf *graphFields) {
 								r := c.classifyMap(gf, lc.Common().Args[0])
 								if r.level == "inner" && r.field == "in" && r.keyV == m && onCopy(r.base) && core.InstrDominates(rem, lc) {
 									pushOK = true
+								}
+							}
+							// helper form: copy.inDegree(m) whose only return is len(receiver.in[param])
+							if hc, ok := l.X.(*ssa.Call); ok && len(hc.Common().Args) == 2 && onCopy(hc.Common().Args[0]) && core.Strip(hc.Common().Args[1]) == m && core.InstrDominates(rem, hc) {
+								if cal := hc.Common().StaticCallee(); cal != nil && p.InTarget(cal) && len(cal.Params) == 2 && len(core.Returns(cal)) == 1 {
+									if rl, ok := core.Returns(cal)[0].Results[0].(*ssa.Call); ok && core.CalleeName(rl.Common()) == "builtin.len" {
+										r := c.classifyMap(gf, rl.Common().Args[0])
+										if r.level == "inner" && r.field == "in" && r.keyV == ssa.Value(cal.Params[1]) && core.Strip(r.base) == ssa.Value(cal.Params[0]) {
+											pushOK = true
+										}
+									}
 								}
 							}
 						}
